@@ -156,7 +156,7 @@ def check(ctx):
                 mm = pmatch("Mux(Q_idx.col <= Q_i, Q_idx.row, Q_inc)", h.rhs)
                 addr[h.lhs[1][1]] = (h, mm)
         for ports, (h, mm) in addr.items():
-            ok = mm is not None and h.lhs[1][2] == mm["i"] and not h.guards()
+            ok = mm is not None and h.lhs[1][2] == mm["i"] and not h.guards() and not is_sync(h.domain)  # combinational: the port is addressed in the same cycle
             if ok:
                 d = resolve_comb(ex, mm["inc"], 1)
                 ok = d == ("call", ("n", "mod_incr"), (("a", mm["idx"], "row"), pat("self.row_count")), ())
@@ -174,7 +174,7 @@ def check(ctx):
         if ens:
             h, e = ens
             lhs_lc = h.lhs[2][0] if h.lhs[2] else None
-            okl = lhs_lc is not None and lhs_lc[0] == "lc" and lhs_lc[2] == ("a", lhs_lc[3][0][0], "en") and domain_class(h.domain) == RUN_GATED
+            okl = lhs_lc is not None and lhs_lc[0] == "lc" and lhs_lc[2] == ("a", lhs_lc[3][0][0], "en") and domain_class(h.domain) == RUN_GATED and not is_sync(h.domain)
             ew0 = writers_of(ex, e) if e[0] == "obj" else []
             d = ew0[0].rhs if len(ew0) == 1 else e
             mk = pmatch("Cat(Q_g)", d)
